@@ -116,6 +116,8 @@ func H_c09_died() {
 	ag := verifForest(t, parent)
 	verifCheckForest(ag, "pre-state")
 	victim := nondet_choice("victim", n)
+	// an agent that a pivot disconnect has already reported inactive keeps its own links
+	ag[victim].Active = !nondet_bool("victim-already-inactive")
 	t.Died(ag[victim])
 	verif_assert(!ag[victim].Active, "a dead agent is marked inactive")
 	verif_assert(len(ag[victim].Pivots.Links) == 0, "removing an agent detaches all of its links")
@@ -143,13 +145,20 @@ func H_c09_markdead() {
 	t := verifNewTeamserver(true)
 	ag := verifForest(t, parent)
 	victim := nondet_choice("victim", 3)
+	ag[victim].Active = !nondet_bool("victim-already-inactive")
 	marks := []string{"Dead", "Alive", "Other"}
 	pk := packager.Package{}
 	pk.Head.Event = packager.Type.Session.Type
 	pk.Body.SubEvent = packager.Type.Session.MarkAsDead
 	pk.Body.Info = map[string]any{"AgentID": verifIDs[victim], "Marked": marks[nondet_choice("mark", 3)]}
+	mark := pk.Body.Info["Marked"].(string)
 	t.DispatchEvent(pk)
 	verif_assert(len(ag) == 3, "session table unchanged in size")
+	verifCheckForest(ag, "after the mark event")
+	if mark == "Dead" {
+		verif_assert(len(ag[victim].Pivots.Links) == 0, "an agent marked dead keeps no links (also one that was inactive already)")
+		verif_assert(ag[victim].Pivots.Parent == nil, "an agent marked dead keeps no parent")
+	}
 	verif_no_locks_held("mark event leaves no client mutex held")
 	verif_witness()
 }
